@@ -267,14 +267,14 @@ struct harness {
     sm_t* sm;
     central_t central;
     verif::tracer& t;
-    int last_legacy_alg, last_lesc_alg;
+    int last_asked, last_ndisp;       // user interface counters at the previous event
 
-    explicit harness(verif::tracer& tr) : sm(nullptr), t(tr), last_legacy_alg(-1), last_lesc_alg(-1) {}
+    explicit harness(verif::tracer& tr) : sm(nullptr), t(tr), last_asked(0), last_ndisp(0) {}
     conn_t& conn() { return sm->connection_data_; }
 
     void reset(int oob_present, int sync) {
         delete sm;
-        io.init(sync); oob.present = oob_present != 0; oob.asked = 0;
+        io.init(sync); oob.present = oob_present != 0; oob.asked = 0; last_asked = last_ndisp = 0;
         sm = new sm_t();                                   // local b1..b6 public, remote a1..a6 random (test_sm.hpp)
         const device_address remote = bluetoe::link_layer::random_device_address({0xa6, 0xa5, 0xa4, 0xa3, 0xa2, 0xa1});
         db.init(remote);
@@ -301,7 +301,8 @@ struct harness {
         const auto st = conn().state();
         t.f("st", state_name(st)).f("lstat", status_name(conn().local_device_pairing_status()))
          .f("encrypted", conn().is_encrypted()).f("linkstat", status_name(conn().pairing_status()))
-         .f("upend", io.pending != nullptr).f("asked", io.asked).f("ndisp", io.ndisplayed);
+         .f("upend", io.pending != nullptr).f("dask", io.asked - last_asked).f("ddisp", io.ndisplayed - last_ndisp);
+        last_asked = io.asked; last_ndisp = io.ndisplayed;
     }
 
     // classify an output PDU of the peripheral
